@@ -947,8 +947,16 @@ def crop_route(rep, prog, rule):
                 if not found:
                     rep.unk(rule, key, st[3], "no assignment of the result on the payload arm")
                     continue
+                sym = sym or Sym(f)
+                ex = sym.rvalue(st[2], b, (b, j))
                 for (bb, jj, rv, w) in found:
-                    if w and rv[0] == "use" and ir.op_place(rv[1]) == [x]:
+                    same_val = False
+                    if w and rv[0] == "use":
+                        try:
+                            same_val = sym.rvalue(rv, bb, (bb, jj)) == ex
+                        except Exception:
+                            same_val = False
+                    if w and rv[0] == "use" and (ir.op_place(rv[1]) == [x] or same_val):
                         rep.ok(rule, key, st[3], "the payload is returned as it is")
                     else:
                         rep.bad(rule, key + "|modified", st[3],
